@@ -24,7 +24,8 @@ import inspect
 from vsc.impl.randobj_int import RandObjInt
 from vsc.constraints import constraint_t, dynamic_constraint_t
 from vsc.impl.ctor import push_constraint_scope, pop_constraint_scope, \
-    clear_exprs, push_srcinfo_mode, pop_srcinfo_mode, in_srcinfo_mode
+    clear_exprs, push_srcinfo_mode, pop_srcinfo_mode, in_srcinfo_mode, \
+    pop_exprs, push_expr
 from vsc.impl.generator_int import GeneratorInt
 from vsc.impl.expr_mode import _expr_mode, get_expr_mode, expr_mode, get_expr_mode_depth, \
     enter_expr_mode, leave_expr_mode, is_raw_mode, is_expr_mode
@@ -198,6 +199,19 @@ class _randobj:
                     raise e
                 
             def build_field_model(self, name):
+                # Elaborating the constraints of this object uses (and 
+                # clears) the process-wide expression stack. Statements
+                # collected so far - an object may be created while a 
+                # randomize_with block is open - are set aside meanwhile
+                saved_exprs = pop_exprs()
+                try:
+                    return self._int_build_field_model(name)
+                finally:
+                    clear_exprs()
+                    for e in saved_exprs:
+                        push_expr(e)
+                
+            def _int_build_field_model(self, name):
                 if self._int_field_info.model is None:
                     model = FieldCompositeModel(name, self._int_field_info.is_rand, self)
                     model.typename = T.__qualname__
@@ -368,6 +382,7 @@ class _randobj:
             setattr(T, "randomize", randomize)
             setattr(T, "randomize_with", randomize_with)
             setattr(T, "build_field_model", build_field_model)
+            setattr(T, "_int_build_field_model", _int_build_field_model)
             setattr(T, "get_model", get_model)
             setattr(T, "set_randstate", set_randstate)
             setattr(T, "get_randstate", get_randstate)
